@@ -365,6 +365,12 @@ func buildFilterFromCondition(cond *modelv1.Condition, schema logical.Schema, ta
 	if parsedEntity != nil {
 		return nil, parsedEntity, collectedTagNames, traceIDs, minVal, maxVal, nil
 	}
+	if orderByTag != "" && cond.Name == orderByTag {
+		// The key tag of the ordering index rule is the element key of that index, it is not stored among the
+		// element tags: there is nothing to prune blocks by (an EQ probe would find the tag "absent" and skip every
+		// block). Range and EQ conditions narrow [minVal, maxVal]; every condition on it is evaluated on the spans.
+		return nil, [][]*modelv1.TagValue{entity}, append(collectedTagNames, cond.Name), traceIDs, minVal, maxVal, nil
+	}
 	// Non-entity condition: add to collectedTagNames (but skip traceID and spanID special cases)
 	if cond.Name == traceIDTagName && (cond.Op == modelv1.Condition_BINARY_OP_EQ || cond.Op == modelv1.Condition_BINARY_OP_IN) {
 		traceIDs = extractIDsFromCondition(cond)
@@ -421,6 +427,11 @@ func buildFilterFromLogicalExpression(le *modelv1.LogicalExpression, schema logi
 	entities := logical.ParseEntities(le.Op, entity, leftEntities, rightEntities)
 	if entities == nil {
 		return nil, nil, collectedTagNames, traceIDs, finalMin, finalMax, nil
+	}
+	if (left == nil || right == nil) && le.Op == modelv1.LogicalExpression_LOGICAL_OP_OR {
+		// one operand cannot be decided from the block filters: a block the other operand would skip may still
+		// hold elements that satisfy this one
+		return nil, entities, collectedTagNames, traceIDs, finalMin, finalMax, nil
 	}
 	if left == nil {
 		return right, entities, collectedTagNames, traceIDs, finalMin, finalMax, nil
@@ -511,6 +522,8 @@ func extractBoundsFromCondition(cond *modelv1.Condition) (int64, int64) {
 	case modelv1.Condition_BINARY_OP_LE:
 		// value <= X means min is unbounded, max is X
 		return math.MaxInt64, value
+	case modelv1.Condition_BINARY_OP_EQ:
+		return value, value
 	default:
 		// Non-range operations don't contribute bounds
 		return math.MaxInt64, math.MinInt64
